@@ -56,8 +56,17 @@ fn list_answers(idx: u64, reqs: &[alpha::Req], full: bool) -> (u64, Vec<String>)
         for rq in reqs {
             let r = e.check_network_request(&rq.req);
             let c = csp_set(&e.get_csp_directives(&rq.req));
-            feed(format!("{:?} {} {} {} -> {:?} {:?}", tagset, rq.url, rq.source, rq.ty, Verdict::of(&r), c));
+            // the two restricted forms of the check as well (a rule matched earlier; exceptions forced)
+            let s1 = Verdict::of(&e.check_network_request_subset(&rq.req, true, false));
+            let s2 = Verdict::of(&e.check_network_request_subset(&rq.req, false, true));
+            feed(format!("{:?} {} {} {} -> {:?} {:?} {} {}", tagset, rq.url, rq.source, rq.ty, Verdict::of(&r), c, s1.short(), s2.short()));
         }
+    }
+    // the same engine once more after its compiled regexes were thrown away (query, discard, query)
+    e.set_regex_discard_policy(adblock::regex_manager::RegexManagerDiscardPolicy { cleanup_interval: std::time::Duration::from_nanos(1), discard_unused_time: std::time::Duration::ZERO });
+    for rq in reqs.iter().step_by(7) {
+        let r = e.check_network_request(&rq.req);
+        feed(format!("after-discard {} {} {} -> {:?}", rq.url, rq.source, rq.ty, Verdict::of(&r)));
     }
     for u in ["https://x.com/", "https://gh.com/", "https://ads.net/a"] {
         let r = e.url_cosmetic_resources(u);
